@@ -100,7 +100,7 @@ fn gen(rng: &mut Rng, tier: Tier) -> Spec {
         writer_cache: gen_cache(rng),
         par_insert: *rng.pick(&[0, 0, 2]),
         policy: gen_policy(rng),
-        h2_mask: if rng.chance(1, 2) { (rng.next_u64() & 0x3ff) as u16 } else { 0 },
+        h2_mask: if rng.chance(1, 2) { (rng.next_u64() & 0x7ff) as u16 } else { 0 },
         universe,
         prefix,
         writer_pause_ms: (0..nlive).map(|_| *rng.pick(&[0, 0, 1, 3, 10, 50])).collect(),
